@@ -1,6 +1,7 @@
 CONSTANTS
   Comp = {"a"}
   MaxDepth = 1
+  OpenFlags = {}
   BatchMembers = {}
   MaxTape = 100000
   Chunks = {"c1", "c2", "c3"}
